@@ -11,7 +11,7 @@
 From CB Require Import Spec Unstable.
 From Coq Require Import Permutation.
 From CBP Require Import Step RefDefs C02Lemmas Arith AbsLemmas AllOps FaultDefs FaultPrims FaultDropA FaultDropB FaultUser
-     Iters DrainP ExtendIo CmpHash Ctors PhysMoves MoreOps UnstableEq Access Views RefTruncate FillExtend FaultFrame SpecCorollaries.
+     Iters DrainP ExtendIo CmpHash Ctors PhysMoves MoreOps UnstableEq Access Views RefTruncate FillExtend FaultFrame SpecCorollaries ValueCorollaries FaultGeneric FaultHistory.
 
 
 Theorem C05_truncate_back :
@@ -118,6 +118,25 @@ Theorem C05_frame_refines :
   refines_at_armed o s w fk k.
 Proof. exact (fault_frame_refines). Qed.
 Print Assumptions C05_frame_refines.
+
+Theorem C05_history :
+  forall (s0 : cbuf) (w0 : world),
+  WF s0 -> plan_nonneg (fault w0) -> NoDup (FaultDefs.ids (abs s0)) ->
+  (forall e : elem, In e (abs s0) -> eid e < next_id w0) ->
+  forall (ops : list op) (rs : list (outcome out)) (s : cbuf) (w : world) (L : fledger),
+  fault_run s0 w0 ops rs s w L ->
+  Forall outcome_ok rs /\
+  (user_panics rs <= 1)%nat /\
+  (user_panics rs = 1%nat -> fault w = None) /\
+  (fault w0 = None -> user_panics rs = 0%nat) /\
+  WF s /\ cap s = cap s0 /\
+  NoDup (FaultDefs.ids (abs s ++ fl_caller L ++ fl_destroyed L)) /\
+  incl (abs s ++ fl_caller L ++ fl_destroyed L) (fl_entered L) /\
+  NoDup (FaultDefs.ids (fl_entered L)) /\
+  (forall e : elem, In e (fl_entered L) -> eid e < next_id w) /\
+  FaultGeneric.plan_step (fault w0) (fault w).
+Proof. exact (fault_history). Qed.
+Print Assumptions C05_history.
 
 Theorem C05_drain :
   forall sb eb script, fault_safe_when (fun s => spec_bounds (size s) sb eb <> None) (ODrain sb eb script false) FDrop.
